@@ -484,9 +484,11 @@ func (r *recipe) flags() wfFlags {
 				f.links = f.links && nf.links
 				f.fits = f.fits && nf.fits
 				f.uniq = f.uniq && nf.uniq
-			} else if bytes.HasPrefix(e.content(), nvarSig) && takenForStore(r.Pol, e.content()) {
-				// a raw value that begins with the signature is fine as long as NewNVarStore refuses it
-				// (Lean: `notStore`, decided by the model's parser: the two verdicts are compared by M `wf`)
+			} else if e.Ext == nil && bytes.HasPrefix(e.content(), nvarSig) && takenForStore(r.Pol, e.content()) {
+				// a raw value that begins with the signature is fine when the entry has an extended header
+				// (since fixes/C10-nested-ext-header.diff fiano never reads such content as a store: Lean
+				// `valueOk`'s `x.isSome`), or as long as NewNVarStore refuses it (Lean: `notStore`, decided by
+				// the model's parser: the two verdicts are compared by M `wf`)
 				f.wf = false
 			}
 		}
@@ -746,8 +748,9 @@ func fixChecksums(rnd interface{ Intn(int) int }, r *recipe) {
 }
 
 // normalizeExtNested rewrites every store value that sits in an entry WITH an extended header into
-// the raw bytes of that store, at every level: fiano hands content + extended header to NewNVarStore,
-// so the grammar treats the value as plain bytes that begin with the signature (valueOk / notStore).
+// the raw bytes of that store, at every level: fiano never reads the content of an entry with an extended
+// header as a store (fixes/C10-nested-ext-header.diff; before it handed content + header to NewNVarStore),
+// so the grammar treats the value as plain bytes that begin with the signature (valueOk: `x.isSome`).
 func (r *recipe) normalizeExtNested() {
 	for i := range r.Entries {
 		e := &r.Entries[i]
